@@ -29,13 +29,19 @@ func (r *ByteCountReader) BytesRead() (n int)
 ghost field GZipCompressReader.total int
 pred gzWF(r *GZipCompressReader) := r != nil && r.gw != nil && r.buff != nil && r.r != nil && gzFed[ref(r.gw)] + rdRem[ifaceVal(r.r)] == r.total && (r.err == io.EOF ==> gzClosed[ref(r.gw)] && rdRem[ifaceVal(r.r)] == 0)
 
+// the number of compressed bytes a GZipCompressReader will yield (a function of the object: the content is not modelled)
+ufunc gzOutLen(z int) int
+axiom a-compressed-stream-has-a-length: forall z int :: gzOutLen(z) >= 0
+
 func NewGZipCompressReader(r io.Reader) (z *GZipCompressReader)
   flag allocates
   requires r != nil
-  modifies gzFed, gzClosed
-  ensures z != nil && fresh(z) && z.r == r && z.err == nil
+  modifies gzFed, gzClosed, rdRem
+  ensures z != nil && fresh(z) && z.r == r && z.err == nil && z.total == old(rdRem[ifaceVal(r)])
+  ensures rdRem == old(store(rdRem, ref(z), gzOutLen(ref(z))))
   ensures nothing-compressed-yet: z.gw != nil && z.buff != nil && gzFed[ref(z.gw)] == 0 && !gzClosed[ref(z.gw)]
   ghost at return: z.total := rdRem[ifaceVal(r)]
+  ghost at return: rdRem := store(rdRem, ref(z), gzOutLen(ref(z)))
 
 func (r *GZipCompressReader) pull()
   requires gzWF(r) && r.err == nil
